@@ -411,6 +411,10 @@ def run(ctx):
             half = shapely.Polygon([(bx0, by0), (bx1, by0), (bx0, by1)])
             corners = shapely.MultiPolygon([box(bx0, by0, bx0 + 1.5, by0 + 1.5), box(bx1 - 1.5, by1 - 1.5, bx1, by1)])
             wide = [(json.dumps(mapping(half)), half), (json.dumps(mapping(corners)), corners)]
+            # a region whose ring crosses itself (a figure of eight drawn by hand): the command line and the library read the
+            # same GeoJSON and must treat it alike
+            eight = shapely.Polygon([(bx0, by0), (bx1, by1), (bx1, by0), (bx0, by1), (bx0, by0)])
+            wide.append((json.dumps(mapping(eight)), eight))
             hpath = os.path.join(tmp, f'clip_half_{n}.geojson')
             open(hpath, 'w').write(json.dumps({'type': 'Feature', 'properties': {}, 'geometry': mapping(half)}))
             wide.append((hpath, half))
